@@ -7,7 +7,7 @@ sys.path.insert(0, os.path.dirname(os.path.dirname(os.path.abspath(__file__))))
 from vf import evidence  # noqa: E402
 
 PLAN = {
-    "C01": ["serverconn", "router", "tlspump", "logfault"],
+    "C01": ["serverconn", "router", "tlspump", "logfault", "liveidle"],
     "C04": ["serverconn", "chain"],
     "C05": ["c05", "chain", "assembly"],
     "C06": ["tlspump", "live", "logfault", "slowhandler"],
